@@ -358,13 +358,20 @@ class Consumer(object):
         def _handle_shutdown_commit_failure(failure):
             """Handle failure of commit() attempted by shutdown"""
             if failure.check(OperationInProgress):
-                failure.value.deferred.addCallback(_commit_and_stop)
+                failure.value.deferred.addCallbacks(_commit_and_stop, _commit_in_progress_failed)
                 return
 
             self._shutdown_d, d = None, self._shutdown_d
             self.stop()
             self._shuttingdown = False  # Shutdown complete
             d.errback(failure)
+
+        def _commit_in_progress_failed(failure):
+            """The commit shutdown was waiting for has failed"""
+            if self._stopping:
+                # stop() is cancelling it, and this shutdown with it
+                return
+            _commit_and_stop(None)
 
         def _commit_and_stop(result):
             """Commit the current offsets (if needed) and stop the consumer"""
